@@ -1,8 +1,123 @@
-(* C07 - component tree stays a consistent forest.  Statements only. *)
-From Coq Require Import List Arith Bool.
+(* C07 - the component tree stays a consistent forest under register/unregister.
+   Only statements here; proofs live in Proofs/KTreeP.v, the model in Model/KTree.v.
+   A history is a list of ops (OReg c p | OUnreg c | OFire x i | OTick r schedules | OFlush x schedule);
+   [run n h init = Ok s] says that every op satisfied the preconditions of the property's quantifier
+   (register: c detached, not pending, p outside c's subtree; unregister: c attached; tick: r is a root),
+   that every schedule was a permutation of the batch it dispatched, and that the model neither ran out of
+   fuel nor crashed.  The schedules are universally quantified: the theorems hold for every order in which
+   a flush may dispatch its batch. *)
+From Coq Require Import List Arith Bool Permutation.
 From Circ Require Import Model.KTree Proofs.KTreeP.
 Import ListNotations.
 
-Theorem C07_init : forall c, par init c = c /\ rt init c = c.
-Proof. exact init_roots. Qed.
-Print Assumptions C07_init.
+(* parent and child links agree, no cycles, every component's root is the top of the tree it is in *)
+Theorem C07_forest : forall n h s, run n h init = Ok s -> forest s.
+Proof. exact run_forest. Qed.
+Print Assumptions C07_forest.
+
+(* the model's executable precondition "root of p is not c" is, for a detached c, exactly
+   "p is outside the subtree of c" *)
+Theorem C07_subtree_reading : forall n h s c p, run n h init = Ok s -> par s c = c ->
+  (rt s p = c <-> desc (kid s) c p).
+Proof. exact run_subtree_reading. Qed.
+Print Assumptions C07_subtree_reading.
+
+(* a component with an unregistration pending is still attached; a detached one is never pending *)
+Theorem C07_pending_attached : forall n h s c, run n h init = Ok s -> pend s c = true -> par s c <> c.
+Proof. exact run_pending_attached. Qed.
+Print Assumptions C07_pending_attached.
+
+(* each completed registration / unregistration has been announced by exactly one event: the
+   registered(c,p) events still queued anywhere in the pool plus those dispatched so far are as many as the
+   register(c,p) ops of the history; likewise unregistered(c,p) and the completed unregistrations *)
+Theorem C07_announce_registered : forall n h s c p, run n h init = Ok s ->
+  qcount n (q s) (Registered c p) + dcount (disp s) (Registered c p) = count_reg c p h.
+Proof. exact run_announce_registered. Qed.
+Print Assumptions C07_announce_registered.
+
+Theorem C07_announce_unregistered : forall n h s c p, run n h init = Ok s ->
+  qcount n (q s) (Unregistered c p) + dcount (disp s) (Unregistered c p) = cntp c p (unregd s).
+Proof. exact run_announce_unregistered. Qed.
+Print Assumptions C07_announce_unregistered.
+
+(* events queued on c before it is registered are in the queue of its new root afterwards, in order,
+   followed by the registered event; nothing else moves *)
+Theorem C07_queue_migrates : forall n h s c p s', run n h init = Ok s -> register n c p s = Ok s' ->
+  rt s' c = rt s p /\
+  q s' (rt s p) = q s (rt s p) ++ q s c ++ [Registered c p] /\
+  q s' c = [] /\
+  (forall x, x <> c -> x <> rt s p -> q s' x = q s x).
+Proof. exact run_register_queue. Qed.
+Print Assumptions C07_queue_migrates.
+
+(* ... and a flush of that root dispatches exactly what is queued there (each event once, by that root) *)
+Theorem C07_flush_dispatches_batch : forall n r sched s s', flush n r sched s = Ok s' ->
+  Permutation sched (q s r) /\
+  exists ds, disp s' = ds ++ disp s /\ map d_ev (rev ds) = sched /\ (forall d, In d ds -> d_root d = r).
+Proof. exact flush_dispatches_batch. Qed.
+Print Assumptions C07_flush_dispatches_batch.
+
+(* every component that received a dispatched event had the dispatching root as its root at that
+   moment.  A component whose unregistration has completed has itself (later: the root of the tree it was
+   re-registered in) as root - C07_detach_connected - so it receives nothing from the tree it left. *)
+Theorem C07_no_delivery_outside_tree : forall n h s d, run n h init = Ok s -> In d (disp s) -> d_ok d = true.
+Proof. exact run_deliveries. Qed.
+Print Assumptions C07_no_delivery_outside_tree.
+
+(* the completing component c becomes the root of exactly its subtree; links inside the subtree are kept,
+   nothing outside changes *)
+Theorem C07_detach_connected : forall n h s c s', run n h init = Ok s -> complete n c s = Ok s' ->
+  par s' c = c /\ pend s' c = false /\ kid s' (par s c) c = false /\
+  (forall x, desc (kid s) c x ->
+     rt s' x = c /\ desc (kid s') c x /\ (x <> c -> par s' x = par s x /\ kid s' (par s x) x = kid s (par s x) x)) /\
+  (forall x, ~ desc (kid s) c x -> rt s' x = rt s x /\ par s' x = par s x).
+Proof. exact run_detach_connected. Qed.
+Print Assumptions C07_detach_connected.
+
+(* register moves c with its whole subtree under the root of p *)
+Theorem C07_move_connected : forall n h s c p s', run n h init = Ok s -> register n c p s = Ok s' ->
+  par s' c = p /\ kid s' p c = true /\
+  (forall x, desc (kid s) c x ->
+     rt s' x = rt s p /\ desc (kid s') c x /\ (x <> c -> par s' x = par s x /\ kid s' (par s x) x = kid s (par s x) x)) /\
+  (forall x, ~ desc (kid s) c x -> rt s' x = rt s x /\ par s' x = par s x).
+Proof. exact run_move_connected. Qed.
+Print Assumptions C07_move_connected.
+
+(* ------------------------------------------------------------------ non-vacuity *)
+
+(* 2 under 1 under 0; events queued on 3 before it is registered under 2; 1 is unregistered with its subtree
+   and re-registered under 4 *)
+Definition ex_hist : list op :=
+  [OReg 1 0; OReg 2 1; OFire 3 7; OReg 3 2;
+   OTick 0 [[Registered 1 0; Registered 2 1; Probe 7; Registered 3 2]];
+   OUnreg 1; OTick 0 [[PrepUnreg 1]; [PrepDone 1]; [Unregistered 1 0]];
+   OReg 1 4; OFire 3 8; OTick 4 [[Registered 1 4; Probe 8]]].
+
+Example C07_ex_run :
+  match run 5 ex_hist init with
+  | Ok s => (map (par s) [0;1;2;3;4], map (rt s) [0;1;2;3;4], map d_recv (rev (disp s)))
+            = ([0;4;1;2;4], [0;4;4;4;4],
+               [[0;1;2;3]; [0;1;2;3]; [0;1;2;3]; [0;1;2;3]; [0;1;2;3]; [0;1;2;3]; [0]; [1;2;3;4]; [1;2;3;4]])
+  | _ => False
+  end.
+Proof. vm_compute. reflexivity. Qed.
+
+(* observed on the real code and reproduced here (outside the statement, no alarm): parent 1 and then its
+   child 2 are unregistered before any tick; 1 completes first, the completion event of 2 is dispatched by
+   the old root, which no longer contains 2; 2 stays pending for ever - and the forest is still consistent *)
+Example C07_ex_pending_for_ever :
+  match run 3 [OReg 1 0; OReg 2 1; OUnreg 1; OUnreg 2;
+               OTick 0 [[Registered 1 0; Registered 2 1; PrepUnreg 1; PrepUnreg 2];
+                        [PrepDone 1; PrepDone 2]; [Unregistered 1 0]; []]] init with
+  | Ok s => (pend s 2, par s 2, rt s 2, par s 1, q s 0, q s 1) = (true, 1, 1, 1, [], [])
+  | _ => False
+  end.
+Proof. vm_compute. reflexivity. Qed.
+
+(* the hypotheses of C07_detach_connected / C07_move_connected are satisfiable *)
+Example C07_ex_complete :
+  match run 3 [OReg 1 0; OReg 2 1; OUnreg 1] init with
+  | Ok s => match complete 3 1 s with Ok s' => (rt s' 2, par s' 2, par s' 1) = (1, 1, 1) | _ => False end
+  | _ => False
+  end.
+Proof. vm_compute. reflexivity. Qed.
